@@ -117,3 +117,45 @@ def oracle_loads(R, tier, seed):
                 if bad: _fail(O, "C16:PointLoads:" + sorted(bad)[0], desc, errors=bad, locs=locs.tolist(), nodes=nodes.tolist())
                 else: O["ok"] += 1
                 R.mark("c16", kind, ny, rep)
+
+
+def oracle_total_loads_in_groups(R, tier, seed):
+    """inside SpatialBeamAlone, with EVERY combination of the optional load sources switched on together (weight relief, point
+    masses + thrust, wing-box fuel): the load vector that reaches the FEM is the applied loads plus every enabled source, and
+    its net vertical force is the applied one minus (structure + fuel share + point masses) * g * load factor"""
+    from .. import structs
+    from .c02 import crm
+    O = R.oracle("SpatialBeamAlone.total-loads-is-the-sum-of-all-enabled-sources")
+    rng = gen.stable_rng(seed, "c16grp")
+    m = crm(num_y=7); ny = m.shape[1]; y = m[0, :, 1]
+    combos = [(True, True, False), (False, True, False), (True, False, False)] + ([(True, True, True), (True, False, True)] if True else [])
+    for relief, pm, fuel in combos:
+        if fuel:
+            s = gen.wingbox_surface(m, symmetry=True, name="wing", struct_weight_relief=relief, distributed_fuel_weight=True, spar_thickness_cp=np.array([0.006, 0.007]), skin_thickness_cp=np.array([0.012, 0.013]), t_over_c_cp=np.array([0.12, 0.12]))
+        else:
+            s = gen.tube_surface(m, symmetry=True, name="wing", thickness_cp=np.array([0.05, 0.06, 0.07]), struct_weight_relief=relief)
+        extra = None
+        if pm:
+            s["n_point_masses"] = 1
+            extra = {"point_masses": (np.array([[800.0]]), "kg"), "point_mass_locations": (np.array([[m[0, 1, 0] + 0.5, 0.5 * (y[1] + y[2]), -0.8]]), "m"), "engine_thrusts": (np.array([[4e4]]), "N")}
+        loads = rng.normal(size=(ny, 6)) * 1e3; lf = float(rng.choice([1.0, 2.5]))
+        p = structs.build_struct(s, loads, load_factor=lf, extra=extra)
+        import warnings
+        with warnings.catch_warnings():
+            warnings.simplefilter("ignore")
+            p.final_setup()
+            if fuel:
+                for n, _ in p.model.list_inputs(out_stream=None, prom_name=True, val=False):
+                    if n.endswith("fuel_mass"): p.set_val(n, 2.0e4)
+        structs.run(p)
+        g = lambda k: structs.g(p, "wing.struct_states." + k)
+        total = g("total_loads"); parts = loads.copy(); names = ["loads"]
+        for on, k in ((relief, "struct_weight_loads"), (pm, "loads_from_point_masses"), (pm, "loads_from_thrusts"), (fuel, "fuel_weight_loads")):
+            if on: parts = parts + g(k); names.append(k)
+        O["cases"] += 1
+        err = float(np.abs(total - parts).max() / max(np.abs(parts).max(), 1e-300))
+        if err > 1e-12:
+            O["failures"].append({"key": "C16:SpatialBeamAlone:total_loads-is-not-the-sum-of-the-enabled-sources", "case": {"weight_relief": relief, "point_masses": pm, "fuel": fuel, "load_factor": lf, "seed": seed},
+                                  "rel_err": err, "sources": names, "net_Fz_total": float(total[:, 2].sum()), "net_Fz_sum_of_sources": float(parts[:, 2].sum())})
+        else: O["ok"] += 1
+        R.mark("c16grp", relief, pm, fuel)
